@@ -14,6 +14,7 @@ Helper lemmas (and the definitions used in statements: `snapPower`, `SnapOK`, `l
 the marker line; the property theorems follow it.
 -/
 import PalomaModel.Model.Libcons
+import PalomaModel.Model.Queue
 import PalomaModel.Gen.Consts
 
 namespace Paloma.Libcons
@@ -2616,3 +2617,124 @@ example : verifyProofs ⟨[(1,25),(2,25),(3,25),(4,25)], 100⟩
      (3, .balances 9 [str "60", str "0"]), (4, .balances 9 [str "60", str "0"])] = .winnerIn [2] := by decide
 
 end Paloma.Libcons
+
+namespace Paloma.Queue
+
+/-! ### C04 at the level of the consensus queue: steps that assign a message again
+
+"The gas estimate elected for a message … once elected never changes" must survive the two steps that give a queued
+message to a relayer again: `reassign` (`Keeper.ReassignOrphanedMessages` → `Queue.ReassignValidator`) and `attest`
+(`CheckAndProcessAttestedMessages` retrying a failed logic call).  For the other steps of the queue machine it is
+`elected_immutable_hist` of Props/C14.lean. -/
+
+/-- helper: the loop of `reassign` changes assignee and relayer address only -/
+theorem c04_reassignAux_rest (env : Env) (ts : Nat) (flags : JobFlags) (q : List Item) :
+    (reassignAux env ts flags q).1.map (fun it => { it with assignee := 0, remote := 0 }) =
+      q.map (fun it => { it with assignee := 0, remote := 0 }) := by
+  induction q with
+  | nil => simp [reassignAux]
+  | cons it rest ih =>
+    unfold reassignAux
+    split
+    · split
+      · rfl
+      · simp only [List.map_cons, ih]
+        simp [handTo]
+    · simp only [List.map_cons, ih]
+
+/-- **reassign_keeps_elected** (clause "once elected never changes", step `reassign`).  Handing stale messages to the
+relayer picked now — whatever the environment, the block time, the set of stale messages and the demands of their jobs,
+whether the loop succeeds or stops at a failing pick — leaves the queue position by position with the same message id,
+the same elected estimate, the same fees, the same stored estimates (the multiset a later election would run over is
+never consulted again: the elected value is not cleared) and the same number of signatures. -/
+theorem reassign_keeps_elected (s : State) (ts : Nat) (flags : JobFlags) :
+    (reassign s ts flags).1.queue.map (fun it => (it.id, it.elected, it.fees, it.estimates, it.sigs.length)) =
+      s.queue.map (fun it => (it.id, it.elected, it.fees, it.estimates, it.sigs.length)) := by
+  have h := congrArg (List.map (fun it : Item => (it.id, it.elected, it.fees, it.estimates, it.sigs.length)))
+    (c04_reassignAux_rest s.env ts flags s.queue)
+  simpa [List.map_map, Function.comp_def, reassign] using h
+
+/-- **elected_message_is_passed_by** (the same clause over the two cooperating steps: the end-block step that follows a
+reassignment).  `checkAndProcessEstimatedMessage` passes by every message that has an elected estimate, whatever estimates
+are stored on it by then and whatever the environment: elected estimate and fees stay.  With `reassign_keeps_elected`
+(an elected message is still elected after the reassignment): reassignment followed by any number of end-block steps
+never re-elects. -/
+theorem elected_message_is_passed_by (env : Env) (snap : Snap) (it : Item) (hel : it.elected ≠ 0) :
+    (electOne env snap it).elected = it.elected ∧ (electOne env snap it).fees = it.fees := by
+  unfold electOne
+  split
+  · exact ⟨rfl, rfl⟩
+  · split
+    · exact ⟨rfl, rfl⟩
+    · split
+      · exact ⟨rfl, rfl⟩
+      · rename_i h
+        exact absurd (Nat.pos_of_ne_zero hel) (by simpa using h)
+
+/-- helper -/
+theorem c04_mem_remove {s : State} {id : Nat} {x : Item} (h : x ∈ (remove s id).1.queue) : x ∈ s.queue := by
+  unfold remove at h
+  split at h
+  · exact h
+  · exact (List.mem_filter.mp h).1
+
+/-- helper: one attested message leaves old messages as they are and adds at most a fresh retry -/
+theorem c04_attestOne_old_or_fresh (ts : Nat) (flags : JobFlags) (s : State) (it : Item) :
+    ∀ x ∈ (attestOne ts flags s it).queue, x ∈ s.queue ∨ (x.elected = 0 ∧ x.fees = none ∧ x.estimates = []) := by
+  intro x hx
+  unfold attestOne at hx
+  split at hx
+  · exact Or.inl hx
+  · split at hx
+    · exact Or.inl hx
+    · split at hx
+      · exact Or.inl hx
+      · split at hx
+        · unfold enqueue at hx
+          split at hx
+          · exact Or.inl (c04_mem_remove hx)
+          · simp only [put] at hx
+            rcases List.mem_append.mp hx with h | h
+            · exact Or.inl (c04_mem_remove h)
+            · simp only [List.mem_singleton] at h
+              subst h
+              exact Or.inr ⟨rfl, rfl, rfl⟩
+        · exact Or.inl (c04_mem_remove hx)
+
+/-- **attest_keeps_elected** (clause "once elected never changes", step `attest`).  Whatever the attestation step does
+— nothing, remove messages whose evidence won, enqueue retries — every message in the queue afterwards is a message
+that was in the queue before, field by field unchanged, or a freshly enqueued retry without elected estimate, fees or
+stored estimates: a retry starts its own election, it never inherits or overwrites one. -/
+theorem attest_keeps_elected (s : State) (ts : Nat) (flags : JobFlags) (x : Item) (hx : x ∈ (attest s ts flags).queue) :
+    x ∈ s.queue ∨ (x.elected = 0 ∧ x.fees = none ∧ x.estimates = []) := by
+  have : ∀ (l : List Item) (s : State), ∀ x ∈ (l.foldl (attestOne ts flags) s).queue,
+      x ∈ s.queue ∨ (x.elected = 0 ∧ x.fees = none ∧ x.estimates = []) := by
+    intro l
+    induction l with
+    | nil => intro s x h; exact Or.inl h
+    | cons it rest ih =>
+      intro s x h
+      simp only [List.foldl_cons] at h
+      rcases ih _ x h with h1 | h1
+      · exact c04_attestOne_old_or_fresh ts flags s it x h1
+      · exact Or.inr h1
+  exact this s.queue s x hx
+
+/-- NOT the code that exists: a reassignment that clears the elected estimate of messages that require estimation
+    ("fees are bound to the assignee").  Negation witness: with it, an estimate handed in after the election moves the
+    value the next end-block step elects. -/
+def handToClearing (it : Item) (vr : Nat × Nat) : Item :=
+  if it.reqEst then { handTo it vr with elected := 0 } else handTo it vr
+
+def c04Snap : Snap := { vals := [⟨1, 5, []⟩, ⟨2, 5, []⟩, ⟨3, 5, []⟩], total := 15 }
+def c04Elected : Item :=
+  { id := 1, kind := .other, content := 7, sender := 0, assignee := 1, remote := 4, reqEst := true,
+    estimates := [(1, 21000), (2, 21000), (3, 23000)], elected := 21000 }
+
+-- elected 21000 by validators 1 and 2 (10 of 15 shares); validator 3's 23000 arrived afterwards
+example : (electOne {} c04Snap { c04Elected with estimates := [(1, 21000), (2, 21000)], elected := 0 }).elected = 21000 := by decide
+example : (electOne {} c04Snap (handTo c04Elected (2, 8))).elected = 21000 ∧
+    (electOne {} c04Snap (handToClearing c04Elected (2, 8))).elected = 21000 ∧
+    (electOne {} c04Snap (handToClearing { c04Elected with estimates := [(1, 21000), (2, 23000), (3, 23000)] } (2, 8))).elected = 23000 := by decide
+
+end Paloma.Queue
